@@ -14,8 +14,8 @@ max_recompute, at most once per period, after the period's events, every recorde
 truth, vandalised run == clean run.
 
 `Interface.get_constraints()` returns the network's live arrays BY DESIGN (DESIGN §8) — not attacked.
-`Interface.infrastructure_info()` raises on a constraint-free network (open finding F3, property C06):
-recorded as unavailable there, not judged here.
+`Interface.infrastructure_info()` used to raise on a constraint-free network (defect F3, property C06,
+repaired in /repo): it now hands out a 0 x N view, which is judged like any other view.
 """
 from __future__ import annotations
 
@@ -118,8 +118,10 @@ def _truth(sim, ctx):
            "last_pilots": lp, "last_rates": rates, "peak": _f(sim.peak),
            "queue_min": min(q) if q else None, "hist_max": max(hist) if hist else None, "hist_len": len(hist),
            "connected": [(e._ev._session_id if e._ev is not None else None) for e in evses]}
-    if net.constraint_matrix is not None:
-        out["infra"] = {"constraint_matrix": [[_f(x) for x in row] for row in np.asarray(net.constraint_matrix).tolist()],
+    if True:
+        # a constraint-free network is described by a 0 x N view (defect F3, repaired in /repo)
+        cm = net.constraint_matrix
+        out["infra"] = {"constraint_matrix": [] if cm is None else [[_f(x) for x in row] for row in np.asarray(cm).tolist()],
                         "constraint_limits": _lst(net.magnitudes), "phases": _lst(net._phase_angles),
                         "voltages": _lst(net._voltages), "constraint_ids": [str(x) for x in net.constraint_index],
                         "station_ids": list(net._EVSEs.keys()),
@@ -548,8 +550,8 @@ def oracle(case, obs):
                     want = _num(s["remaining_demand"]) * 1000 / V * 60 / float(I.num(case["period"]))
                     if not close(_num(ap), want):
                         fails.append({"kind": "view_mismatch:amp_periods", "detail": f"period {t} session {s['session']}: remaining_amp_periods {ap}, expected {want}"})
-        elif case.get("constraint"):
-            fails.append({"kind": "infra_wrong", "detail": f"period {t}: infrastructure_info() raised {v.get('infra_err')} on a constrained network"})
+        else:
+            fails.append({"kind": "infra_wrong", "detail": f"period {t}: infrastructure_info() raised {v.get('infra_err')}"})
 
     # --- the views against the FINAL trajectory and the layout (independent of the same-moment snapshot)
     if valid and obs["err"] is None:
